@@ -147,6 +147,7 @@ type restoreJob struct {
 	plant       []byte // stale-tmp: bytes planted at <output>.tmp before the restore; foreign-wal: the -wal
 	plant2      []byte // foreign-wal: the -shm
 	wantLogical string // foreign-wal: what SQLite must see in the restored database
+	side        int    // cancel: whether -wal/-shm were observed after the interrupted check (environment input of the model)
 	// abstract inputs for the model
 	failStep string
 	faults   int
@@ -166,8 +167,12 @@ func (j restoreJob) line() string {
 	if j.mut.Integrity != 0 {
 		integ = 1
 	}
-	return fmt.Sprintf("restore PRE=%d TMPPRE=0 FAIL=%s FAULTS=%d CORRUPT=%d SIZES=%d INTEG=%d IOK=%d CANCEL=0",
-		b(j.mut.Kind == "preexist" && j.mut.PreKind != "dangling"), j.failStep, j.faults, b(j.corrupt), b(j.sizes), integ, b(j.iok))
+	cancel := 0
+	if j.mut.Kind == "cancel" {
+		cancel = 1
+	}
+	return fmt.Sprintf("restore PRE=%d TMPPRE=0 FAIL=%s FAULTS=%d CORRUPT=%d SIZES=%d INTEG=%d IOK=%d CANCEL=%d SIDE=%d",
+		b(j.mut.Kind == "preexist" && j.mut.PreKind != "dangling"), j.failStep, j.faults, b(j.corrupt), b(j.sizes), integ, b(j.iok), cancel, j.side)
 }
 
 func restoreSig(m Mut, what string) string {
@@ -329,7 +334,10 @@ func runRestoreJobs(drv *hx.Driver, jobs []restoreJob, scratch string, par int) 
 	}
 	wg.Wait()
 	lines := make([]string, 0, 2*len(jobs))
-	for _, j := range jobs {
+	for i, j := range jobs {
+		if j.mut.Kind == "cancel" && (out[i].obs.Wal || out[i].obs.Shm) {
+			j.side = 1
+		}
 		lines = append(lines, j.line())
 		j.corrupt = false
 		lines = append(lines, j.line())
@@ -389,6 +397,11 @@ func judgeRestore(res *hx.Result, o restoreOut) bool {
 	// "rejected" and "immaterial"; the oracle above still demands byte-identical output.
 	if (j.mut.Kind == "flip" || j.mut.Kind == "disk-flip") && o.obs.Res == "ok" && !hx.Differs(o.obs.canon(), o.modelAlt) {
 		res.Count("restore/flip-immaterial(identical output)")
+	} else if j.mut.Kind == "cancel" && j.mut.CancelDelayUS > 0 {
+		// a cancellation racing with the check: whether the context was already cancelled when the check
+		// returned is decided by timing; nothing to predict (the oracle above still applies: on a good
+		// replica both outcomes are legitimate, on a bad image nil never is)
+		res.Count(fmt.Sprintf("restore/cancel-race(bad-image=%v)->%s out=%s", j.hist.BadImage != "", o.obs.Res, o.obs.Out))
 	} else if j.mut.Kind == "foreign-wal" {
 		// no model comparison: the output-protocol model has no pre-existing sidecars (DESIGN.md Deviations)
 	} else if o.obs.Res != "CRASH" && hx.Differs(o.obs.canon(), o.model) {
@@ -436,6 +449,14 @@ func jobsFor(r *hx.Rand, env *replicaEnv, h HistSpec, scratch string, all bool, 
 			add(Mut{Kind: "none", Integrity: mode}, func(j *restoreJob) { j.failStep, j.iok = "integrity", true })
 		}
 		add(Mut{Kind: "none", Integrity: 0}, nil)
+		// cancellation landing before / during the check: the check can never pass on this image, so nil
+		// (= "integrity check passed") is wrong whatever the timing
+		for _, mode := range []int{1, 2} {
+			for _, d := range []int{0, 200, 2000, 20000} {
+				add(Mut{Kind: "cancel", Integrity: mode, CancelDelayUS: d, MustErr: "the restored image cannot pass the integrity check (and the context was cancelled around it)"},
+					func(j *restoreJob) { j.failStep, j.iok = "integrity", true })
+			}
+		}
 		return jobs, nil
 	}
 	if h.CorruptSrc {
@@ -458,6 +479,17 @@ func jobsFor(r *hx.Rand, env *replicaEnv, h HistSpec, scratch string, all bool, 
 	if err := foreignWalJobs(env, h, scratch, want, add); err != nil {
 		return nil, err
 	}
+	// cancellation exactly when the last download completes: only the integrity check sees it; the check did
+	// not run to completion, so success must not be reported (the complete output may stay). With a delay the
+	// cancellation races with a check that would pass: observed only.
+	for _, mode := range []int{1, 2} {
+		add(Mut{Kind: "cancel", Integrity: mode, MustErr: "the context was cancelled before the integrity check could run"},
+			func(j *restoreJob) { j.failStep = "integrity" })
+		for _, d := range []int{200, 2000, 20000} {
+			add(Mut{Kind: "cancel", Integrity: mode, CancelDelayUS: d}, nil)
+		}
+	}
+	add(Mut{Kind: "cancel", Integrity: 0}, nil) // no check: the cancellation comes too late to matter
 	add(Mut{Kind: "none"}, nil)
 	add(Mut{Kind: "none", Integrity: 1}, nil)
 	add(Mut{Kind: "none", Integrity: 2}, nil)
